@@ -8,6 +8,8 @@ use crate::{model::mode::ConvertError, Beatmap, Difficulty};
 
 use super::{convert, difficulty::DifficultyValues};
 
+pub use super::difficulty::verif::{pre_dump, pre_dump_gradual, pre_dump_raw, PreDump};
+
 /// The per-object strains of the stamina skill, i.e. what
 /// `Stamina::count_top_weighted_strains` sums over, after processing the map
 /// exactly like [`Taiko::difficulty`](crate::taiko::Taiko) does.
